@@ -80,12 +80,21 @@ class UseWalrusIf(SimpleCodemod, NameResolutionMixin):
     def _single_access(self, original_node: cst.IfExp) -> bool:
         match original_node.test:
             case cst.Name():
-                access = self.find_accesses(original_node.test)
+                name = original_node.test
             case cst.UnaryOperation():
-                access = self.find_accesses(original_node.test.expression)
+                name = original_node.test.expression
             case _:
-                access = self.find_accesses(original_node.test.left)
-        return len(access) == 1
+                name = original_node.test.left
+        if not (scope := self.get_metadata(ScopeProvider, name, None)):
+            return False
+        # Count every read of the variable, including those made from nested scopes
+        # (inner functions, lambdas, comprehensions), which `scope.accesses` omits
+        references = {
+            reference
+            for assignment in scope[name.value]
+            for reference in assignment.references
+        }
+        return len(references) == 1
 
     def on_visit(self, node: cst.CSTNode) -> Optional[bool]:
         if len(node.children) < 2:
